@@ -17,6 +17,8 @@ const (
 	SchemaChange        // schema or zero threshold or custom bounds change
 	Shift               // bucket layout shifts / shrinks
 	Gauge               // gauge histogram with arbitrary counts
+	NegShrink           // negative (and positive) buckets disappear without any count going down elsewhere: backward inserts
+	ZeroReset           // only the zero bucket goes down (a counter reset visible nowhere else)
 	NModes
 )
 
@@ -129,9 +131,44 @@ func (s *State) Next(r *prng.R, mode int, sum float64, float bool) (*histogram.H
 				s.Pos[k] = int64(r.Range(0, 6))
 			}
 			s.Pos[s.idx(r)] = int64(r.Range(1, 6))
+			if s.Custom == nil && r.Chance(0.5) {
+				for _, k := range allKeys(s.Neg) {
+					s.Neg[k] = int64(r.Range(0, 4))
+				}
+				s.Neg[s.idx(r)] = int64(r.Range(1, 4))
+			}
+		case NegShrink:
+			// make sure there are several buckets on both sides, then drop one that is followed by a populated one
+			if s.Custom == nil {
+				for len(s.Neg) < 3 {
+					s.Neg[s.idx(r)] += int64(r.Range(1, 3))
+				}
+				if ks := sortedKeys(s.Neg); len(ks) >= 2 {
+					delete(s.Neg, ks[r.Intn(len(ks)-1)])
+				}
+			}
+			for len(s.Pos) < 3 {
+				s.Pos[s.idx(r)] += int64(r.Range(1, 3))
+			}
+			if ks := sortedKeys(s.Pos); len(ks) >= 2 && r.Chance(0.5) {
+				delete(s.Pos, ks[r.Intn(len(ks)-1)])
+			}
+		case ZeroReset:
+			if s.Custom == nil {
+				if s.Zero > 0 {
+					s.Zero -= 1 + int64(r.Intn(int(s.Zero)))
+				} else {
+					s.Zero = int64(r.Range(1, 3)) // next time it can go down
+				}
+			}
+			for _, k := range allKeys(s.Pos) {
+				if r.Chance(0.5) {
+					s.Pos[k] += int64(r.Intn(2))
+				}
+			}
 		}
 	}
-	gauge := mode == Gauge
+	gauge := mode == Gauge || mode == NegShrink // a layout may only shrink without a counter reset in a gauge histogram
 	if float {
 		fh := &histogram.FloatHistogram{Schema: s.Schema, ZeroThreshold: s.ZeroTh, ZeroCount: float64(s.Zero) * 0.5, Sum: sum}
 		if s.Custom != nil {
